@@ -400,6 +400,9 @@ class ModuleVistor(NodeVisitor):
                 current.report("cannot resolve re-exported name :"
                                         f'{modname}.{origin_name}', thresh=1)
             else:
+                if not isinstance(ob.parent, model.CanContainImportsDocumentable):
+                    # A top-level module or package is not defined in a module: there is nothing to move.
+                    return False
                 if origin_module.all is None or origin_name not in origin_module.all:
                     self.system.msg(
                         "astbuilder",
